@@ -17,7 +17,7 @@ import random
 
 from harness import core, learners as L, xlearner as X
 
-MODULES = ["AdaptiveProofs.Props.C09"]
+MODULES = ["AdaptiveProofs.Props.C09", "AdaptiveProofs.Lemmas.L2D"]
 KINDS = ["l1d", "l1d_curv", "l1d_vec", "l1d_tri", "lnd2", "lnd3", "lnd4", "lnd2_curv", "l2d", "avg", "avg1d", "seq", "integ",
          "bal:l1d", "bal:seq", "bal:avg", "bal:lnd2", "bal:cycle:l1d", "bal:cycle:seq", "bal:npoints:avg", "bal:loss:l1d", "bal:ds:l1d", "bal:cycle:ds:seq", "ds:l1d", "ds:seq", "ds:lnd2"]
 
@@ -329,8 +329,23 @@ def run(ctx):
                 sig = "C09.lossF:l2d_pending_set_order"
             failures.append({"clause": cl, "signature": sig, "detail": det,
                              "replay": {"kind": r["kind"], "seed": r["seed"], "nops": r["nops"]}})
+    # Learner2D.ask against its Lean bookkeeping model (AdaptiveModel/L2D.lean): the stack rewrite of a non-committing ask, the
+    # marks set and removed, the answers of committing and non-committing asks - bit for bit, geometry of _fill_stack as oracle
+    from harness import l2d_drive
+    corr = core.Corr("Learner2D~L2D.lean")
+    lrng = random.Random(ctx.rng.randrange(1 << 30))
+    lcases = [dict(c) for c in l2d_drive.CORPUS] + [l2d_drive.gen_case(lrng, ctx.n(40, 60)) for _ in range(ctx.n(100, 1500))]
+    lres = core.pmap(l2d_drive._one, lcases)
+    for r in lres:
+        for k, v in r["stats"].items():
+            corr.count(k, int(v))
+        if r["err"] and str(r["err"]).startswith("harness"):
+            raise RuntimeError(r["err"])
+        if r["err"]:
+            corr.count("history_cut_by_exception_of_the_geometry")
+    core.lockstep(corr, lres, shards=ctx.n(4, 12))
     return core.conclude(
-        ctx, proof, [], failures,
+        ctx, proof, [corr], failures,
         rule="twin histories (asks, out-of-order tells, unsuggested points, re-tells, explicit pending marks, discards, batched tells) "
              "for 21 learner kinds incl. Balancing and DataSaver wrappers; twin A receives ask(n, False) twice before ~35% of the ops; "
              "non-trivial = (kind, seed) history in which A received at least one extra non-committing ask",
